@@ -101,6 +101,10 @@ def _cond_classes(v, cond, target_root):
                     # false edge: anything (subnormal positives are POS too)
                     return tset, ALL
                 return tset, ALL - tset
+        # a predicate defined in the crate (`fn is_valid(x: f64) -> bool`): summarised from its own body
+        summ = _predicate_summary(v, t, target_root)
+        if summ is not None:
+            return summ
         return None
     if k == "binop":
         rv = cond[1]
@@ -119,6 +123,76 @@ def _cond_classes(v, cond, target_root):
         fset = frozenset(k2 for k2 in ALL if _can(k2, o, c, False))
         return tset, fset
     return None
+
+
+_summaries = {}
+
+
+def _local_body(facts, callee):
+    from .vals import norm_path
+    for key in ("resolved", "path"):
+        p = callee.get(key)
+        if p and p in facts.mir:
+            return facts.mir[p]
+    p = callee.get("path")
+    if p:
+        hits = [b for b in facts.mir.values() if norm_path(b.path) == norm_path(p)]
+        if len(hits) == 1:
+            return hits[0]
+    return None
+
+
+def _predicate_summary(v, term, target_root, depth=0):
+    """(classes for which the local predicate may return true, classes for which it may return false) of the argument that is the
+    target value; None when the callee is not a local bool function of that value."""
+    facts = getattr(v.body, "facts", None)
+    c = term.get("callee") or {}
+    if facts is None or c.get("trait") or depth > 2:
+        return None
+    cb = _local_body(facts, c)
+    if cb is None or cb.local_ty(0) != "bool":
+        return None
+    idx = [i for i, a in enumerate(term["args"]) if a["k"] in ("copy", "move") and v.root(a) == target_root]
+    if len(idx) != 1 or cb.local_ty(idx[0] + 1) != "f64":
+        return None
+    key = (id(facts), cb.key, idx[0])
+    if key in _summaries:
+        return _summaries[key]
+    from .vals import Root
+    vv = Vals(cb)
+    tr = Root(("arg", idx[0] + 1))
+    IN, _g, _o = classes_at(cb, tr, vv)
+    tset, fset = set(), set()
+    for bi, blk in enumerate(cb.blocks):
+        if blk["cleanup"] or bi not in IN:
+            continue
+        cur = IN[bi]
+        defs = [st for st in blk["stmts"] if st["place"]["l"] == 0 and not st["place"]["p"]]
+        t_ = blk["term"]
+        if t_["k"] == "call" and t_["dest"]["l"] == 0 and not t_["dest"]["p"]:
+            cc = _cond_classes(vv, ("call", t_, bi), tr)
+            if cc is None:
+                tset |= cur
+                fset |= cur
+            else:
+                tset |= cur & cc[0]
+                fset |= cur & cc[1]
+        for st in defs:
+            rv = st["rv"]
+            if rv["k"] == "use" and rv["op"]["k"] == "const":
+                (tset if rv["op"].get("int") == "1" or rv["op"].get("disp") == "true" else fset).update(cur)
+                continue
+            cond = vv.classify_bool(rv["op"]) if rv["k"] == "use" else (("binop", rv) if rv["k"] == "binop" else None)
+            cc = _cond_classes(vv, cond, tr) if cond is not None else None
+            if cc is None:
+                tset |= cur
+                fset |= cur
+            else:
+                tset |= cur & cc[0]
+                fset |= cur & cc[1]
+    out = (frozenset(tset), frozenset(fset))
+    _summaries[key] = out
+    return out
 
 
 def class_of_const(c):
